@@ -1,11 +1,11 @@
-\* kapacitorLoopback under TaskMaster.Close: terminates; looped-back points are delivered or refused with an error.
+\* two goroutines already inside ExecutingTask.Wait() when the stop arrives
 SPECIFICATION Spec
 CONSTANTS
-    MaxPts = 3
+    MaxPts = 2
     K = 1
-    BufSize = 1
-    Topos <- MCLoopOnly
-    StopKinds = {"close"}
+    BufSize = 2
+    Topos <- MCToposSmall
+    StopKinds <- BothKinds
     AllowFail = TRUE
     MaxN = 3
     MaxE = 4
@@ -13,7 +13,7 @@ CONSTANTS
     ReaderDone = TRUE
     AlertCloseOnErr = TRUE
     UdfStopAborts = FALSE
-    NWaiters = 0
+    NWaiters = 2
     WaitHoldsMu = TRUE
     HookNeedsTmLock = FALSE
 INVARIANTS
@@ -22,5 +22,9 @@ INVARIANTS
     OneShotErrCh
     NoAcceptedLoss
     AckedAllForked
+    NoSilentDrop
+    NoDuplicate
+    NothingInvented
     NoCollectOnClosed
+    StoppedMeansQuiet
 CHECK_DEADLOCK TRUE
